@@ -1,7 +1,582 @@
-//! C37 — not built yet.
-use lv_common::Ctx;
+//! C37 — Header subscriptions deliver a gap-free increasing stream.
+//!
+//! The real `BroadcastingStore<InMemoryStore>` (hook `lumina_node::verif::subscriptions::BroadcastSim`)
+//! is driven by a proptest recipe: the initial head H0 is inserted and announced exactly as the
+//! syncer's `try_init` + `init_broadcast` do; the interval (H0, H0+n] and the history below H0 are cut
+//! into ranges that are offered to `announce_insert` in recipe order (ranges the store rejects stay
+//! available and are retried later); re-initialisations insert a new network head directly into the
+//! inner store (as `try_init` does) and call `init_broadcast` again. Subscribers are eager tasks on
+//! the same `current_thread` runtime which record, for every header received, whether the store
+//! already held it at that moment.
+use std::collections::BTreeSet;
+use std::sync::atomic::{AtomicU64, Ordering};
+use std::sync::{Arc, Mutex};
 
-pub fn run(_ctx: &mut Ctx) {
-    eprintln!("C37: check not built yet");
-    std::process::exit(2);
+use celestia_types::ExtendedHeader;
+use lumina_node::store::{InMemoryStore, Store};
+use lumina_node::verif::subscriptions::BroadcastSim;
+use lv_common::prelude::*;
+use lv_gen::longchain::cached_chain;
+use tokio::sync::broadcast::error::RecvError;
+
+const CHAIN_SEED: u64 = 0xC37;
+const MAX_HIST: u64 = 24;
+const BASES: [u64; 3] = [1, 5000, (1 << 33) + 11];
+
+static LAGGED_CASES: AtomicU64 = AtomicU64::new(0);
+
+#[derive(Clone, Debug, Serialize, Deserialize, PartialEq)]
+pub enum Op {
+    /// offer one of the not-yet-inserted ranges (monotone selector, ascending by height)
+    Offer(u16),
+    /// re-initialisation with a new network head: selector 0 = the current store head (nothing to
+    /// insert), otherwise a not-yet-stored height (descending)
+    Reinit(u16),
+    /// a second subscriber joins now
+    LateSub,
+}
+
+#[derive(Clone, Debug, Serialize, Deserialize)]
+pub struct Case {
+    pub base: u8,
+    /// number of historical headers below the initial head
+    pub hist: u8,
+    /// heights above the initial head
+    pub n: u8,
+    /// cut points of (H0, H0+n] and of the history (monotone selectors)
+    pub up_cuts: Vec<u16>,
+    pub hist_cuts: Vec<u16>,
+    pub ops: Vec<Op>,
+    /// first subscriber subscribes before the initial head is announced
+    pub early_sub: bool,
+    /// after the ops, offer everything that is left (highest first) until the store takes no more
+    pub drain: bool,
+}
+
+fn case_strategy(max_n: u8, max_ops: usize) -> impl Strategy<Value = Case> {
+    let op = prop_oneof![
+        12 => any::<u16>().prop_map(Op::Offer),
+        2 => prop_oneof![1 => Just(0u16), 3 => any::<u16>()].prop_map(Op::Reinit),
+        1 => Just(Op::LateSub),
+    ];
+    (
+        0u8..BASES.len() as u8,
+        prop_oneof![1 => Just(0u8), 3 => 0u8..=MAX_HIST as u8],
+        prop_oneof![1 => 1u8..=6, 3 => 1u8..=max_n],
+        prop::collection::vec(any::<u16>(), 0..12),
+        prop::collection::vec(any::<u16>(), 0..4),
+        prop::collection::vec(op, 0..=max_ops),
+        prop::bool::weighted(0.85),
+        prop::bool::weighted(0.7),
+    )
+        .prop_map(|(base, hist, n, up_cuts, hist_cuts, ops, early_sub, drain)| Case {
+            base,
+            hist,
+            n,
+            up_cuts,
+            hist_cuts,
+            ops,
+            early_sub,
+            drain,
+        })
+}
+
+fn chain_for(base: u8, max_n: u64) -> (u64, Arc<Vec<ExtendedHeader>>) {
+    let b = BASES[(base as usize).min(BASES.len() - 1)];
+    (b, cached_chain(CHAIN_SEED, b, (MAX_HIST + 1 + max_n) as usize))
+}
+
+/// cut `lo..=hi` into consecutive ranges at the selected points
+fn partition(lo: u64, hi: u64, cuts: &[u16]) -> Vec<(u64, u64)> {
+    if hi < lo {
+        return vec![];
+    }
+    let len = (hi - lo + 1) as usize;
+    // a cut at position p (1..len) starts a new range at lo + p
+    let mut ps: BTreeSet<u64> = BTreeSet::new();
+    if len > 1 {
+        for c in cuts {
+            ps.insert(1 + pick(*c, len - 1) as u64);
+        }
+    }
+    let mut out = Vec::new();
+    let mut a = lo;
+    for p in ps {
+        out.push((a, lo + p - 1));
+        a = lo + p;
+    }
+    out.push((a, hi));
+    out
+}
+
+#[derive(Default)]
+struct SubLog {
+    /// (height, store held this height when received, header equals the chain's)
+    recs: Vec<(u64, bool, bool)>,
+    lagged: Option<u64>,
+}
+
+fn spawn_subscriber(
+    sim: &BroadcastSim,
+    store: Arc<InMemoryStore>,
+    chain: Arc<Vec<ExtendedHeader>>,
+    base: u64,
+) -> Arc<Mutex<SubLog>> {
+    let log = Arc::new(Mutex::new(SubLog::default()));
+    let mut rx = sim.subscribe();
+    let l = log.clone();
+    tokio::spawn(async move {
+        loop {
+            match rx.recv().await {
+                Ok(h) => {
+                    let height = h.height();
+                    let stored = store.has_at(height).await;
+                    let same = height >= base && chain.get((height - base) as usize).is_some_and(|c| *c == h);
+                    l.lock().unwrap().recs.push((height, stored, same));
+                }
+                Err(RecvError::Lagged(n)) => {
+                    l.lock().unwrap().lagged = Some(n);
+                }
+                Err(RecvError::Closed) => break,
+            }
+        }
+    });
+    log
+}
+
+async fn settle(logs: &[Arc<Mutex<SubLog>>]) {
+    let total = |logs: &[Arc<Mutex<SubLog>>]| logs.iter().map(|l| l.lock().unwrap().recs.len()).sum::<usize>();
+    let mut last = total(logs);
+    let mut stable = 0;
+    for _ in 0..100_000 {
+        tokio::task::yield_now().await;
+        let cur = total(logs);
+        if cur == last {
+            stable += 1;
+            if stable >= 4 {
+                break;
+            }
+        } else {
+            stable = 0;
+            last = cur;
+        }
+    }
+}
+
+struct Sim {
+    chain: Arc<Vec<ExtendedHeader>>,
+    base: u64,
+    h0: u64,
+    sim: BroadcastSim,
+    store: Arc<InMemoryStore>,
+    /// model: heights held by the store
+    stored: BTreeSet<u64>,
+    /// not yet inserted ranges, ascending
+    avail: Vec<(u64, u64)>,
+    early: Option<Arc<Mutex<SubLog>>>,
+    /// late subscriber: its log, the early log position at subscription, `last_sent_height` at subscription
+    late: Option<(Arc<Mutex<SubLog>>, usize, u64)>,
+}
+
+impl Sim {
+    fn headers(&self, a: u64, b: u64) -> Vec<ExtendedHeader> {
+        self.chain[(a - self.base) as usize..=(b - self.base) as usize].to_vec()
+    }
+
+    fn logs(&self) -> Vec<Arc<Mutex<SubLog>>> {
+        self.early.iter().cloned().chain(self.late.iter().map(|l| l.0.clone())).collect()
+    }
+
+    /// top of the contiguous stored interval starting at H0
+    fn contiguous_top(&self) -> u64 {
+        let mut h = self.h0;
+        while self.stored.contains(&(h + 1)) {
+            h += 1;
+        }
+        h
+    }
+
+    fn lagged(&self) -> bool {
+        self.logs().iter().any(|l| l.lock().unwrap().lagged.is_some())
+    }
+
+    /// Safety part of the oracle over everything received so far.
+    fn check_safety(&self, obs: &mut Obs, hist: &str) -> Result<(), Failure> {
+        let check_log = |obs: &mut Obs, name: &str, recs: &[(u64, bool, bool)]| -> Result<(), Failure> {
+            for (i, (h, stored, same)) in recs.iter().enumerate() {
+                obs.check(*stored, "C37:received-before-stored", || {
+                    format!("{name} subscriber received height {h} while the store did not hold it; {hist}")
+                })?;
+                obs.check(*same, "C37:received-foreign-header", || {
+                    format!("{name} subscriber received a header at height {h} that is not the inserted one; {hist}")
+                })?;
+                if i > 0 {
+                    let prev = recs[i - 1].0;
+                    obs.check(*h > prev, "C37:duplicate-or-decreasing", || {
+                        format!("{name} subscriber received height {h} after {prev}; {hist}")
+                    })?;
+                    obs.check(*h == prev + 1, "C37:gap", || {
+                        format!("{name} subscriber received height {h} right after {prev} (gap); {hist}")
+                    })?;
+                }
+            }
+            Ok(())
+        };
+        if let Some(e) = &self.early {
+            let recs = e.lock().unwrap().recs.clone();
+            if let Some((first, _, _)) = recs.first() {
+                obs.check(*first == self.h0 || *first == self.h0 + 1, "C37:first-height-wrong", || {
+                    format!("first height received is {first}, initial head is {}; {hist}", self.h0)
+                })?;
+            }
+            check_log(obs, "early", &recs)?;
+        }
+        if let Some((l, pos, base_sent)) = &self.late {
+            let recs = l.lock().unwrap().recs.clone();
+            check_log(obs, "late", &recs)?;
+            match &self.early {
+                Some(e) => {
+                    let e = e.lock().unwrap().recs.clone();
+                    let tail: Vec<u64> = e.iter().skip(*pos).map(|r| r.0).collect();
+                    let mine: Vec<u64> = recs.iter().map(|r| r.0).collect();
+                    obs.check(tail == mine, "C37:subscribers-disagree", || {
+                        format!("early subscriber received {tail:?} after the late one joined, the late one received {mine:?}; {hist}")
+                    })?;
+                }
+                None => {
+                    if let Some((first, _, _)) = recs.first() {
+                        obs.check(*first == base_sent + 1, "C37:late-first-height-wrong", || {
+                            format!("late subscriber joined after height {base_sent} was sent, its first height is {first}; {hist}")
+                        })?;
+                    }
+                }
+            }
+        }
+        Ok(())
+    }
+
+    /// Liveness part: heights in (H0, H] that some subscriber should have received and did not.
+    fn undelivered(&self) -> Vec<u64> {
+        let top = self.contiguous_top();
+        let mut missing = BTreeSet::new();
+        if let Some(e) = &self.early {
+            let last = e.lock().unwrap().recs.last().map(|r| r.0).unwrap_or(self.h0);
+            missing.extend(last + 1..=top);
+        }
+        if let (Some((l, _, base_sent)), None) = (&self.late, &self.early) {
+            let last = l.lock().unwrap().recs.last().map(|r| r.0).unwrap_or(*base_sent);
+            missing.extend(last + 1..=top);
+        }
+        missing.into_iter().collect()
+    }
+}
+
+fn run_case(case: &Case, max_n: u64, obs: &mut Obs) -> Result<(), Failure> {
+    let (base, chain) = chain_for(case.base, max_n);
+    let hist = (case.hist as u64).min(MAX_HIST);
+    let n = (case.n as u64).clamp(1, max_n);
+    let h0 = base + hist;
+    let want_late = case.ops.contains(&Op::LateSub);
+    let early_sub = case.early_sub || !want_late;
+
+    let rt = tokio::runtime::Builder::new_current_thread()
+        .enable_time()
+        .start_paused(true)
+        .build()
+        .expect("runtime");
+
+    rt.block_on(async {
+        let store = Arc::new(InMemoryStore::new());
+        let mut s = Sim {
+            chain: chain.clone(),
+            base,
+            h0,
+            sim: BroadcastSim::new(store.clone()),
+            store: store.clone(),
+            stored: BTreeSet::new(),
+            avail: Vec::new(),
+            early: None,
+            late: None,
+        };
+        s.avail.extend(partition(base, h0.wrapping_sub(1), &case.hist_cuts).into_iter().filter(|_| hist > 0));
+        s.avail.extend(partition(h0 + 1, h0 + n, &case.up_cuts));
+        let mut history: Vec<String> = Vec::new();
+        macro_rules! hist_str {
+            () => {
+                format!("H0={h0}, history: [{}]", history.join(", "))
+            };
+        }
+
+        // ---- initial head: try_init (insert into the inner store) + init_broadcast
+        if early_sub {
+            s.early = Some(spawn_subscriber(&s.sim, store.clone(), chain.clone(), base));
+        }
+        if let Err(e) = store.insert(s.headers(h0, h0)).await {
+            return obs.fail("C37:harness-initial-insert", format!("initial head insert failed: {e}"));
+        }
+        s.stored.insert(h0);
+        s.sim.init_broadcast(chain[(h0 - base) as usize].clone()).await;
+        history.push(format!("init({h0})"));
+        settle(&s.logs()).await;
+
+        let mut live_ok = true;
+        let mut pending_used = false;
+        let mut reinit_ok = 0u32;
+        let mut inserted_upper = 0u32;
+        let mut checks = 0u64;
+
+        enum Act {
+            Offer(usize),
+            Reinit(u16),
+            LateSub,
+        }
+        let total_ops = case.ops.len();
+        let mut op_i = 0usize;
+        let mut draining = false;
+        let mut drain_cursor: usize = 0;
+        let mut drain_progress = false;
+        loop {
+            // ---- choose the next action
+            let act = if op_i < total_ops {
+                let op = &case.ops[op_i];
+                op_i += 1;
+                match op {
+                    Op::Offer(sel) => {
+                        if s.avail.is_empty() {
+                            continue;
+                        }
+                        Act::Offer(pick(*sel, s.avail.len()))
+                    }
+                    Op::Reinit(sel) => Act::Reinit(*sel),
+                    Op::LateSub => Act::LateSub,
+                }
+            } else if case.drain {
+                if !draining {
+                    draining = true;
+                    drain_cursor = s.avail.len();
+                    drain_progress = false;
+                }
+                if drain_cursor == 0 {
+                    if !drain_progress || s.avail.is_empty() {
+                        break;
+                    }
+                    drain_cursor = s.avail.len();
+                    drain_progress = false;
+                }
+                drain_cursor -= 1;
+                Act::Offer(drain_cursor)
+            } else {
+                break;
+            };
+
+            match act {
+                Act::Offer(i) => {
+                    let (a, b) = s.avail[i];
+                    let upper = a > h0;
+                    let before_top = s.contiguous_top();
+                    let r = s.sim.announce_insert(s.headers(a, b)).await;
+                    settle(&s.logs()).await;
+                    match r {
+                        Ok(()) => {
+                            history.push(format!("insert({a}..={b})"));
+                            s.avail.remove(i);
+                            s.stored.extend(a..=b);
+                            drain_progress = true;
+                            if upper {
+                                inserted_upper += 1;
+                                if a != before_top + 1 {
+                                    pending_used = true;
+                                }
+                            } else {
+                                obs.label("historical-insert");
+                            }
+                        }
+                        Err(_) => {
+                            history.push(format!("insert({a}..={b})=rejected"));
+                            obs.label("insert-rejected");
+                        }
+                    }
+                    if s.lagged() {
+                        break;
+                    }
+                    s.check_safety(obs, &hist_str!())?;
+                    if r.is_ok() && upper {
+                        checks += 1;
+                        let missing = s.undelivered();
+                        live_ok = missing.is_empty();
+                        obs.check(live_ok, "C37:undelivered-after-insert", || {
+                            format!(
+                                "after announce_insert({a}..={b}) heights up to {} are stored contiguously above H0 but {missing:?} were not delivered (last_sent_height={:?}, pending={:?}); {}",
+                                s.contiguous_top(),
+                                s.sim.last_sent_height(),
+                                s.sim.pending_ranges(),
+                                hist_str!()
+                            )
+                        })?;
+                    }
+                }
+                Act::Reinit(sel) => {
+                    // candidates: the store head itself, then every not-yet-stored height, descending
+                    let head = *s.stored.iter().next_back().expect("store not empty");
+                    let mut cands = vec![head];
+                    for (a, b) in s.avail.iter().rev() {
+                        cands.extend((*a..=*b).rev());
+                    }
+                    let x = cands[pick(sel, cands.len())];
+                    let net_head = chain[(x - base) as usize].clone();
+                    // --- what syncer::try_init does with the store
+                    let try_insert = match store.get_head().await {
+                        Ok(sh) => sh.hash() != net_head.hash(),
+                        Err(_) => true,
+                    };
+                    if try_insert {
+                        if let Err(_e) = store.insert(vec![net_head.clone()]).await {
+                            history.push(format!("reinit({x})=rejected"));
+                            obs.label("reinit-rejected");
+                            continue;
+                        }
+                        s.stored.insert(x);
+                        // split the range that contained x
+                        if let Some(i) = s.avail.iter().position(|(a, b)| *a <= x && x <= *b) {
+                            let (a, b) = s.avail.remove(i);
+                            if x < b {
+                                s.avail.insert(i, (x + 1, b));
+                            }
+                            if a < x {
+                                s.avail.insert(i, (a, x - 1));
+                            }
+                        }
+                        obs.label("reinit-new-head");
+                    } else {
+                        obs.label("reinit-same-head");
+                    }
+                    s.sim.init_broadcast(net_head).await;
+                    reinit_ok += 1;
+                    history.push(format!("reinit({x})"));
+                    settle(&s.logs()).await;
+                    if s.lagged() {
+                        break;
+                    }
+                    s.check_safety(obs, &hist_str!())?;
+                    if live_ok {
+                        checks += 1;
+                        let missing = s.undelivered();
+                        if !missing.is_empty() {
+                            live_ok = false;
+                            obs.label("reinit-completes-interval");
+                            obs.label("reinit-completes-interval-undelivered");
+                            obs.fail(
+                                "C37:reinit-head-not-flushed-until-next-insert",
+                                format!(
+                                    "re-initialisation with head {x} completed the interval up to {} but {missing:?} were not delivered at quiescence (last_sent_height={:?}, pending={:?}); {}",
+                                    s.contiguous_top(),
+                                    s.sim.last_sent_height(),
+                                    s.sim.pending_ranges(),
+                                    hist_str!()
+                                ),
+                            )?;
+                        } else if x > h0 && s.contiguous_top() >= x && try_insert && !s.logs().is_empty() {
+                            obs.label("reinit-completes-interval");
+                            obs.label("reinit-completes-interval-delivered");
+                        }
+                    }
+                }
+                Act::LateSub => {
+                    if s.late.is_none() {
+                        let pos = s.early.as_ref().map(|e| e.lock().unwrap().recs.len()).unwrap_or(0);
+                        let sent = s.sim.last_sent_height().unwrap_or(h0);
+                        let log = spawn_subscriber(&s.sim, store.clone(), chain.clone(), base);
+                        s.late = Some((log, pos, sent));
+                        history.push("late-subscribe".to_string());
+                        obs.label("late-subscriber");
+                        settle(&s.logs()).await;
+                    }
+                }
+            }
+        }
+
+        if s.lagged() {
+            LAGGED_CASES.fetch_add(1, Ordering::SeqCst);
+            obs.label("harness-receiver-lagged");
+            return Ok(());
+        }
+
+        // ---- final judgement at quiescence
+        settle(&s.logs()).await;
+        s.check_safety(obs, &hist_str!())?;
+        let missing = s.undelivered();
+        if live_ok {
+            // nothing changed since the last passing check unless only rejected/historical ops followed
+            obs.check(missing.is_empty(), "C37:undelivered-at-quiescence", || {
+                format!("at the end {missing:?} are stored contiguously above H0 but undelivered; {}", hist_str!())
+            })?;
+        }
+        checks += 1;
+        let top = s.contiguous_top();
+        let nontrivial = pending_used || reinit_ok > 0;
+        obs.eval(nontrivial.then(|| digest_of(case)));
+        obs.label_n("liveness-checkpoints", checks);
+        if pending_used {
+            obs.label("pending-used");
+        }
+        if reinit_ok > 0 {
+            obs.label("reinit-ok");
+        }
+        if top == h0 + n && missing.is_empty() {
+            obs.label("fully-delivered");
+        }
+        if inserted_upper >= 3 {
+            obs.label("three-or-more-upper-ranges");
+        }
+        if h0 == 1 {
+            obs.label("initial-head-is-1");
+        }
+        if !early_sub {
+            obs.label("no-early-subscriber");
+        }
+        Ok(())
+    })
+}
+
+pub fn run(ctx: &mut Ctx) {
+    ctx.assume("ranges offered to announce_insert never contain or straddle last_sent_height (the caller's documented precondition, a debug_assert in the code): only not-yet-stored ranges are offered");
+    ctx.assume("re-initialisation is modelled as syncer::try_init does it: compare the store head's hash with the network head, insert the head directly into the inner store, then init_broadcast; a rejected insert means no init_broadcast");
+    ctx.assume("subscribers drain eagerly on the same current_thread runtime; a Lagged receiver is a harness fault (exit 2), not a finding");
+    ctx.assume("liveness is judged at quiescence (all tasks idle) after each successful announce_insert above the initial head, after each re-initialisation and at the end");
+    ctx.assume("first delivered height may be the initial head itself (DESIGN §7)");
+    ctx.essential(&[
+        "pending-used",
+        "reinit-ok",
+        "reinit-new-head",
+        "reinit-same-head",
+        "insert-rejected",
+        "historical-insert",
+        "late-subscriber",
+        "fully-delivered",
+        "three-or-more-upper-ranges",
+        "reinit-completes-interval",
+    ]);
+    let max_n: u64 = 120;
+    for b in 0..BASES.len() as u8 {
+        if let Err(rec) = lv_common::no_panic(|| chain_for(b, max_n)) {
+            ctx.inconclusive(format!("chain generator fault: {rec}"));
+            return;
+        }
+    }
+    let cases = ctx.tier.pick(20000, 300000);
+    let max_ops = ctx.tier.pick(30, 60);
+    ctx.set_shrink_iters(4000);
+    ctx.proptest(
+        "broadcast-history",
+        "one BroadcastingStore history per case: initial head, a partition of (H0, H0+n] (n <= 120) and of up to 24 historical heights \
+         offered in recipe order with rejected inserts retried, re-initialisations, an optional late subscriber, optional final drain; \
+         non-trivial = some range had to wait in `pending` or a re-initialisation happened; distinct = digest of the recipe",
+        cases,
+        move || case_strategy(max_n as u8, max_ops),
+        move |case, obs| run_case(case, max_n, obs),
+    );
+    let lagged = LAGGED_CASES.load(Ordering::SeqCst);
+    if lagged > 0 {
+        ctx.inconclusive(format!("{lagged} cases had a Lagged broadcast receiver (harness fault)"));
+    }
 }
